@@ -36,6 +36,7 @@ func init() {
 			"p4create": {N: func(t string) int { return tierN(t, 3, 160) }, Case: c15Case("p4"), Race: true, Env: raceEnv()},
 			"p5faulty": {N: func(t string) int { return tierN(t, 4, 240) }, Case: c15Case("p5"), Race: true, Env: raceEnv()},
 			"p6twodbs": {N: func(t string) int { return tierN(t, 3, 160) }, Case: c15Case("p6"), Race: true, Env: raceEnv()},
+			"p8dirs":   {N: func(t string) int { return tierN(t, 2, 48) }, Case: c15Case("p8"), Race: true, Env: raceEnv()},
 			"p7batch":  {N: func(t string) int { return tierN(t, 8, 48) }, Case: c15Case("p7"), Race: true, Env: raceEnv()},
 		},
 	})
@@ -179,6 +180,8 @@ func c15Case(prog string) func(string, int64, int, string) rt.CaseResult {
 			logs = c15Create(&c, seed, idx, scratch)
 		case "p7":
 			logs = c15BigBatch(&c, seed, idx, scratch)
+		case "p8":
+			logs = c15Dirs(&c, seed, idx, scratch)
 		case "p6":
 			// two (three) databases in one process, each used by its own goroutines at the same time:
 			// whatever fs_db keeps per process (sequence counter, pools, caches) is shared by them
@@ -514,7 +517,7 @@ func c15Create(c *rt.CaseResult, seed int64, idx int, scratch string) [][]tlog {
 }
 
 func init() {
-	Registry["C15"].Rule += " P7: clean-up batches of several thousand versions, i.e. more chunks of the cleaner than three times the workers (rollbacks of transactions with 4300-5000 deletions, one worker) while other goroutines write and read. P6: two or three databases in one process (the third behind the server), each driven by its own goroutines at the same time. P5: the steady workload (inline and through the server) with faults injected by stateless fault functions - a few percent of the content writes fail (no space, fully or after half the chunk; EIO), of the metadata writes and file creations fail, one root reports less free space than the other, and one call in eight carries a context that expires within 20-600 us - so that the error and clean-up paths run concurrently under the race detector too."
+	Registry["C15"].Rule += " P8: directories limited to 100 entries on 1-2 roots, six writers of fresh keys and two deleters, the scheduled collector at 20 ms: directories fill up, are replaced, lose files and are handed back to the directory repository by the cleaner while other goroutines are choosing a directory. P7: clean-up batches of several thousand versions, i.e. more chunks of the cleaner than three times the workers (rollbacks of transactions with 4300-5000 deletions, one worker) while other goroutines write and read. P6: two or three databases in one process (the third behind the server), each driven by its own goroutines at the same time. P5: the steady workload (inline and through the server) with faults injected by stateless fault functions - a few percent of the content writes fail (no space, fully or after half the chunk; EIO), of the metadata writes and file creations fail, one root reports less free space than the other, and one call in eight carries a context that expires within 20-600 us - so that the error and clean-up paths run concurrently under the race detector too."
 }
 
 // c15BigBatch: one goroutine ends transactions whose clean-up is larger than one chunk of the
@@ -576,5 +579,59 @@ func c15BigBatch(c *rt.CaseResult, seed int64, idx int, scratch string) [][]tlog
 	env.Drain()
 	stop.Store(true)
 	wg.Wait()
+	return logs
+}
+
+// c15Dirs: directory rotation and re-registration under concurrency.
+func c15Dirs(c *rt.CaseResult, seed int64, idx int, scratch string) [][]tlog {
+	env, err := dbx.Open(dbx.Options{Mode: dbx.Inline, Dir: filepath.Join(scratch, "db"), Roots: 1 + idx%2, MaxDirCount: 100, MaxDirExplicit: true, GCPeriod: 20 * time.Millisecond, NumWorkers: 2})
+	if err != nil {
+		c.Violate("open-failed", err.Error(), nil)
+		return [][]tlog{{}}
+	}
+	defer env.Close()
+	const writers, deleters = 6, 2
+	logs := make([][]tlog, writers+deleters)
+	t0 := time.Now()
+	var wg sync.WaitGroup
+	var written [writers]atomic.Int64
+	per := 260
+	for g := 0; g < writers; g++ {
+		wg.Add(1)
+		go func(g int) {
+			defer wg.Done()
+			for i := 0; i < per; i++ {
+				if i%64 == 0 {
+					rt.Beat()
+				}
+				s := time.Since(t0)
+				env.DB.Set(ctxBg, fmt.Sprintf("w%d-%d", g, i), []byte("v"))
+				written[g].Store(int64(i + 1))
+				logs[g] = append(logs[g], tlog{"set", s, time.Since(t0)})
+			}
+		}(g)
+	}
+	for d := 0; d < deleters; d++ {
+		wg.Add(1)
+		go func(d int) {
+			defer wg.Done()
+			rng := seqrun.Rng(seed, "C15d", idx*10+d)
+			for i := 0; i < per*2; i++ {
+				g := rng.Intn(writers)
+				n := written[g].Load()
+				if n == 0 {
+					time.Sleep(200 * time.Microsecond)
+					continue
+				}
+				s := time.Since(t0)
+				env.DB.Delete(ctxBg, fmt.Sprintf("w%d-%d", g, rng.Int63n(n)))
+				logs[writers+d] = append(logs[writers+d], tlog{"delete", s, time.Since(t0)})
+				time.Sleep(300 * time.Microsecond)
+			}
+		}(d)
+	}
+	wg.Wait()
+	env.Collect()
+	env.Drain()
 	return logs
 }
